@@ -129,6 +129,49 @@ func (w *worker) selectorRace(cons rebalancing.SafetyConstraints) {
 	}
 }
 
+// startRace: fresh rebalancers; a few goroutines, released together, each call Start once. Exactly one call succeeds (the
+// others are told it is started already), and after the one matching Stop no monitor goroutine is left.
+func (w *worker) startRace(iv time.Duration) {
+	for trial := 0; trial < 200; trial++ {
+		base := runtime.NumGoroutine()
+		sr := rebalancing.NewSmartRebalancer(&fakeIndex{size: 1 << 20}, rebalancing.WithReevalInterval(iv))
+		ctx, cancel := context.WithCancel(context.Background())
+		const k = 4
+		var start, done sync.WaitGroup
+		start.Add(1)
+		var ok atomic.Int64
+		for g := 0; g < k; g++ {
+			done.Add(1)
+			go func() {
+				defer done.Done()
+				start.Wait()
+				if sr.Start(ctx) == nil {
+					ok.Add(1)
+				}
+			}()
+		}
+		start.Done()
+		done.Wait()
+		_ = sr.Stop()
+		left := 0
+		for wait := 0; wait < 200; wait++ { // a stopped monitor needs a moment to unwind
+			if left = runtime.NumGoroutine() - base; left <= 0 {
+				break
+			}
+			time.Sleep(time.Millisecond)
+		}
+		cancel()
+		if ok.Load() != 1 {
+			w.invariant("%d of %d simultaneous Start calls on a fresh rebalancer succeeded (trial %d)", ok.Load(), k, trial)
+			return
+		}
+		if left > 0 {
+			w.invariant("%d goroutine(s) still running 200 ms after the Stop that matches the one successful Start (trial %d)", left, trial)
+			return
+		}
+	}
+}
+
 // turns hands out its modes in turn (atomic counter): concurrent calls get different proposals.
 type turns struct {
 	modes []rebalancing.Mode
@@ -182,6 +225,9 @@ func (w *worker) runSmart() {
 		sr := rebalancing.NewSmartRebalancer(idx, rebalancing.WithDetector(det), rebalancing.WithSelector(sel), rebalancing.WithReevalInterval(iv))
 		if w.c.Rotate && w.c.StableUS >= 10_000_000 {
 			w.selectorRace(cons)
+		}
+		if rep == 0 && w.c.Rotate {
+			w.startRace(iv)
 		}
 		var recs, evals, starts atomic.Int64
 		soleDriver := true // start/stop only in thread 0, no Evaluate from user threads
